@@ -1389,6 +1389,7 @@ _all_kw = st.fixed_dictionaries({}, optional={
     "nillable": st.booleans(), "min_occurs": st.integers(0, 2),
     "max_occurs": st.sampled_from([1, 2, "unbounded"]), "doc": st.just("ad")})
 _pref = st.sampled_from([None, "simple", "simple", "complex", "array"])
+_tpref = st.sampled_from([None, "simple", "complex", "complex", "array"])
 _fields = st.lists(st.tuples(_idx, _pref).map(list), min_size=0, max_size=4)
 _style = st.sampled_from(["ti", "ti", "attrs"])
 _ghost = st.one_of(st.none(), st.none(), st.integers(0, 2))
@@ -1419,14 +1420,15 @@ def _complex_step(draw, op):
     if op == "mand":
         return {"op": "mand", "src": draw(_idx), "pref": draw(_pref)}
     if op == "append":
-        return {"op": "append", "src": draw(_idx), "t": draw(_idx), "pref": draw(_pref),
+        return {"op": "append", "src": draw(_idx), "t": draw(_idx), "pref": draw(_tpref),
                 "ghost": draw(_ghost)}
-    return {"op": "insert", "src": draw(_idx), "t": draw(_idx), "pref": draw(_pref),
+    return {"op": "insert", "src": draw(_idx), "t": draw(_idx), "pref": draw(_tpref),
             "idx": draw(st.integers(-1, 3)), "ghost": draw(_ghost)}
 
 
 _OPS = ["prim", "prim", "prim", "new", "new", "new", "sub", "sub", "cust", "cust", "child", "child",
-        "child_all", "array", "array", "mand", "mand", "append", "append", "insert", "insert"]
+        "child_all", "child_all", "array", "array", "mand", "mand", "append", "append", "insert",
+        "insert"]
 
 
 @st.composite
@@ -1448,7 +1450,7 @@ def histories():
 
 # --------------------------------------------------------------------------- contract
 def shards(tier):
-    n = 100 if tier == "quick" else 1000
+    n = 120 if tier == "quick" else 1000
     return [{"kind": "hyp", "i": i, "n": n} for i in range(16)]
 
 
